@@ -66,6 +66,14 @@ pub fn run(seed: u64, tier: &str, shard: usize, nshards: usize, collide: bool) -
     let rt = tokio::runtime::Builder::new_multi_thread().worker_threads(3).enable_all().build().unwrap();
     let total = if tier == "thorough" { 40_000 } else { 3_200 };
     let mut rng = Rng::derive(seed, 0xC01_000 + shard as u64 + if collide { 7777 } else { 0 });
+    // bulk family: wrapped device + graceful reopen (a few plans per shard, they are long)
+    if !collide {
+        let nb = if tier == "thorough" { 24 } else { 3 };
+        for _ in 0..nb {
+            let plan = crate::c01bulk::gen_plan(&mut rng);
+            crate::c01bulk::run_one(&rt, &plan, &mut res, prop);
+        }
+    }
     for i in 0..total / nshards.max(1) {
         let cfg = gen_cfg(&mut rng, i, collide);
         let max = cfg.max_entry_size();
